@@ -91,6 +91,8 @@ type progCase struct {
 	// expectations set by the generator family (absent: valid program)
 	ExpectParse   string `json:"xp,omitempty"`
 	ExpectCompile string `json:"xc,omitempty"`
+	// the parser model's verdict on a token-only case ("ok" | "err"), for drift reporting
+	ModelParse string `json:"mp,omitempty"`
 }
 
 var paramMaps = []map[string]string{
@@ -401,6 +403,12 @@ func (pc *progChecker) checkGenerated(c *progCase, rng interface {
 			if cerr == nil {
 				res.violate(Violation{Property: "C13", Kind: "planted_violation_compiled", InputB64: b64(text), Extra: extra,
 					Observed: sql, Reason: "a program that breaks a documented rule was compiled"})
+			}
+		}
+		if c.ModelParse != "" && (c.ModelParse == "ok") != (perr == nil) {
+			res.Drift++
+			if len(res.DriftSample) < 5 {
+				res.DriftSample = append(res.DriftSample, map[string]any{"text": text, "ParseMachine": c.ModelParse, "Parse_error": fmt.Sprint(perr)})
 			}
 		}
 		if c.ExpectParse != "ok" {
